@@ -593,6 +593,21 @@ impl MutableArchive {
         use std::fs;
         use tempfile::NamedTempFile;
 
+        // Pending changes live in the cached tables and in a (listfile) that is newer
+        // than the one `self.archive` has loaded. Write them out and re-read the archive
+        // so that names and contents are taken from the current state.
+        if self.dirty {
+            self.flush()?;
+        }
+        self.archive = Archive::open(&self._path)?;
+        self.hash_table = None;
+        self.block_table = None;
+        self._hi_block_table = None;
+        self.next_file_offset = None;
+        self.updated_hash_table_pos = None;
+        self.updated_block_table_pos = None;
+        self.modified_blocks.clear();
+
         // Ensure tables are loaded
         self.ensure_tables_loaded()?;
 
@@ -642,12 +657,13 @@ impl MutableArchive {
                         None
                     };
 
-                    let filename = filename.unwrap_or_else(|| {
-                        // Generate placeholder name if not found in listfile
-                        generate_anonymous_filename(
-                            ((entry.name_1 as u64) << 32 | entry.name_2 as u64) as u32,
+                    // A file can only be carried over under its real name. Copying it
+                    // under a placeholder name would make it unreachable for callers.
+                    let filename = filename.ok_or_else(|| {
+                        Error::invalid_format(
+                            "Cannot compact: the archive contains a file whose name is not in the (listfile)",
                         )
-                    });
+                    })?;
 
                     files_to_copy.push((hash_idx, block_idx, filename, *entry, *block));
                 }
@@ -662,14 +678,8 @@ impl MutableArchive {
             }
 
             // Read the file data
-            let file_data = match self.read_file(filename) {
-                Ok(data) => data,
-                Err(_) => {
-                    // Skip files we can't read
-                    log::warn!("Skipping file {filename} during compaction (read error)");
-                    continue;
-                }
-            };
+            // A file that cannot be read must not silently disappear
+            let file_data = self.read_file(filename)?;
 
             // Determine compression and encryption from block flags
             let compression = if block_entry.is_compressed() {
